@@ -15,6 +15,7 @@ const (
 	verifPtMakeDeadline
 	verifPtClockWake
 	verifPtStopClock
+	verifPtDeadlineRead
 )
 
 func verifPoint(id int) {}
